@@ -1278,6 +1278,20 @@ fn real_boundary() -> Vec<RealCase> {
         c.q_wf = Some(qwf);
         out.push(c);
     }
+    // Dijkstra on a NON-metric network (every length a quarter of the great-circle distance): the estimate is inadmissible
+    // there, A* makes no claim, Dijkstra (factor 0, from the algorithm or from the query) must still be optimal
+    for qwf in [None, Some(0.0)] {
+        let mut c = blank_case("dijkstra_nonmetric");
+        highway_network(&mut c, 4, 60.0);
+        for e in c.edges.iter_mut() {
+            e.2 = (e.2 / 4.0).ceil();
+        }
+        c.metric = false;
+        c.cfg_w = w(0.0, 1.0);
+        c.cfg_v = raw();
+        c.q_wf = qwf;
+        out.push(c);
+    }
     // the estimate must use the MAXIMUM table speed
     for k in [4usize, 8, 12] {
         for (du, tu) in [(Some("kilometers"), Some("hours")), (Some("meters"), None), (Some("miles"), Some("minutes"))] {
@@ -1300,6 +1314,30 @@ fn real_boundary() -> Vec<RealCase> {
         c.cfg_w = vec![("distance".to_string(), 1.0)];
         c.cfg_v = vec![("distance".to_string(), Rate::Factor(0.5))];
         out.push(c);
+    }
+    // per-edge surcharge tables, forward and reverse: the surcharge of an edge is charged to THAT edge wherever it lies
+    // on the route (next to the origin, next to the destination), so the slightly longer surcharge-free route must win
+    for (name, sur_edge) in [("surcharge_first_edge", 0usize), ("surcharge_last_edge", 1usize)] {
+        for reverse in [false, true] {
+            for speed_model in [false, true] {
+                let mut c = blank_case(name);
+                two_route_network(&mut c);
+                // same speed everywhere: route 0-1-3 is shorter and faster, but carries the surcharge
+                for e in c.edges.iter_mut() {
+                    e.3 = 50.0;
+                }
+                c.speed_model = speed_model;
+                c.fdu = Some("meters".into());
+                c.cfg_w = if speed_model { w(1.0, 1.0) } else { vec![("distance".to_string(), 1.0)] };
+                c.cfg_v = if speed_model { raw() } else { vec![("distance".to_string(), Rate::Raw)] };
+                c.cfg_n = Some(("distance".to_string(), vec![(sur_edge, 65536.0)]));
+                c.reverse = reverse;
+                if reverse {
+                    std::mem::swap(&mut c.s, &mut c.t);
+                }
+                out.push(c);
+            }
+        }
     }
     // many hops against few hops, every unit pair (edge-locality: the accumulator must not leak into an edge's cost)
     out.extend(chain_cases());
